@@ -45,13 +45,17 @@ def _geom_batch(task):
     cell = CELLS[cell_i]
     P = np.array([r["p"] for r in recs], dtype=float)
     if cell is not None:
-        cm = np.array(cell, dtype=float)
-        P = P + rs.randint(-2, 3, size=(n, na, 3)) @ cm + (rs.randint(-3, 4, size=(n, 1, 3)) @ cm)   # per-atom lattice shifts + a frame offset
+        # the cell varies from frame to frame (integer multiples; orthorhombic ones also stretched per axis), > 256 frames per call
+        cm = np.array(cell, dtype=float)[None] * rs.randint(1, 3, size=(n, 1, 1))
+        if cell_i == 1:
+            cm = cm + np.eye(3)[None] * rs.randint(0, 4, size=(n, 3))[:, None, :]
+        cm[0] = np.array(cell, dtype=float)
+        P = P + np.einsum("nai,nij->naj", rs.randint(-2, 3, size=(n, na, 3)).astype(float), cm) + np.einsum("nai,nij->naj", rs.randint(-3, 4, size=(n, 1, 3)).astype(float), cm)
     else:
         P = P + rs.randint(-40, 41, size=(n, 1, 3))
     t = md.Trajectory((P * G).astype(np.float32), _top(na))
     if cell is not None:
-        t.unitcell_vectors = np.stack([np.array(cell) * G] * n).astype(np.float32)
+        t.unitcell_vectors = (cm * G).astype(np.float32)
     idx = [list(range(na)), list(range(na - 1, -1, -1))]
     out = []
     fn = md.compute_angles if na == 3 else md.compute_dihedrals
